@@ -338,3 +338,80 @@ pub fn drain(body: SBody, extra: usize, horizon: usize) -> BodyTrace {
     }
     t
 }
+
+/// As `drain`, but the body is polled INSIDE a tokio task (current-thread runtime): code that
+/// consults the runtime -- cooperative budgeting, `block_in_place`, task-local state -- behaves
+/// differently there than under a hand-rolled poll loop. `Pending` results are awaited (the
+/// task is re-polled when woken), so only `Ready` results appear as steps; a frame that does not
+/// arrive within 5 s counts as stuck.
+pub fn drain_in_tokio(body: SBody, extra: usize, horizon: usize) -> BodyTrace {
+    let rt = tokio::runtime::Builder::new_current_thread().enable_time().build().expect("runtime");
+    rt.block_on(async move {
+        let h = tokio::spawn(async move {
+            let mut body = LeakOnUnwind::new(Box::pin(body));
+            let mut t = BodyTrace { steps: Vec::new(), last: None, stuck: false, horizon: false, sample_panic: None };
+            let mut after_terminal: Option<usize> = None;
+            let mut dead = false;
+            loop {
+                if t.steps.len() >= horizon {
+                    t.horizon = after_terminal.is_none();
+                    break;
+                }
+                let s = {
+                    let b = &body;
+                    match catch_unwind(AssertUnwindSafe(|| {
+                        let h = b.size_hint();
+                        Sample { lower: h.lower(), upper: h.upper(), is_end: b.is_end_stream() }
+                    })) {
+                        Ok(s) => s,
+                        Err(p) => {
+                            t.sample_panic = Some(panic_msg(p));
+                            break;
+                        }
+                    }
+                };
+                let fut = std::future::poll_fn(|cx| match catch_unwind(AssertUnwindSafe(|| body.as_mut().poll_frame(cx))) {
+                    Err(p) => Poll::Ready(Obs::Panic(panic_msg(p))),
+                    Ok(Poll::Pending) => Poll::Pending,
+                    Ok(Poll::Ready(None)) => Poll::Ready(Obs::End),
+                    Ok(Poll::Ready(Some(Err(e)))) => Poll::Ready(Obs::Err(e.into())),
+                    Ok(Poll::Ready(Some(Ok(f)))) => Poll::Ready(match f.into_data() {
+                        Ok(VBuf::Virt { off, len, .. }) => Obs::Virt(off, len),
+                        Ok(VBuf::Real(b)) => Obs::Real(b.chunk().to_vec()),
+                        Err(_) => Obs::OtherFrame,
+                    }),
+                });
+                let o = match tokio::time::timeout(std::time::Duration::from_secs(5), fut).await {
+                    Ok(o) => o,
+                    Err(_) => {
+                        t.stuck = after_terminal.is_none();
+                        break;
+                    }
+                };
+                let term = o.is_terminal();
+                let panicked = matches!(o, Obs::Panic(_));
+                t.steps.push((s, o));
+                if panicked {
+                    dead = true;
+                    break;
+                }
+                if let Some(k) = after_terminal.as_mut() {
+                    *k += 1;
+                    if *k >= extra {
+                        break;
+                    }
+                } else if term {
+                    after_terminal = Some(0);
+                    if extra == 0 {
+                        break;
+                    }
+                }
+            }
+            if dead {
+                body.leak();
+            }
+            t
+        });
+        h.await.expect("drain task")
+    })
+}
